@@ -29,12 +29,11 @@ RULE = (
 ASSUMPTIONS = [
     "{% with %} between a component tag and its fill, read inside the fill in isolated mode: unspecified (docs and code disagree), not judged",
     "django mode: reads inside forwarded fills of names bound by intermediate components, and names bound around the slot tag in the inner template: unspecified, not judged",
-    "`only` on a tag with a body and {{ default }} under a with/for between tag and fill are listed findings shown by fixed witnesses; the generator does not produce them",
+    "{{ default }} under a {% with %} between tag and fill in isolated mode is not generated (see the first assumption)",
 ]
 
 K1 = "C03-loop-layer-forwarded-into-isolated-component"
-K2 = "C03-only-flag-hides-outer-variables-from-fill"
-K3 = "C03-default-alias-content-sees-fill-scope"
+# (K2 `only` + fills and K3 {{ default }} content seeing the fill's scope were repaired in the repository: known_findings.json -> fixed)
 K4 = "C03-fill-captured-layer-placement"
 
 
@@ -66,7 +65,7 @@ def tokens(s):
     return out
 
 
-def classify(prog, mode, page_ctx, ref, got, listed=(K1, K2, K3, K4)):
+def classify(prog, mode, page_ctx, ref, got, listed=(K1, K4)):
     """Defect models of the listed findings.  Returns a finding id or None."""
     if ref[0] != "ok" or got[0] != "ok":
         return None
@@ -129,15 +128,6 @@ def classify_k4(mode, ref, got):
             if obs is not None and obs in cands and (exp is None or exp in cands):
                 if (exp is None and cands[obs]) or (exp is not None and cands[obs] != cands[exp]):
                     k4 = True
-        # --- K3: the slot's own default content, rendered through {{ default-alias }} inside a fill, sees the
-        #     scope of that fill: a layer captured for it, its data alias, or any binding visible where the
-        #     alias is expanded
-        k3 = False
-        if recd["via_defaultref"] and obs != exp:
-            if obs is not None and (obs in recd["captured_sites"] or obs in recd["defaultref_env_cands"]):
-                k3 = True
-            if recd["name"] in recd["fill_aliases"] and obs_val == html.escape(str(recd["fill_aliases"][recd["name"]])):
-                k3 = True
         # --- K1 (token level, for transitive forwarding the exact model does not reproduce): a loop variable of a
         #     loop that dynamically encloses the read shows up although it is not visible by the statement's rule
         k1 = False
@@ -146,15 +136,13 @@ def classify_k4(mode, ref, got):
                 k1 = True
         if k4:
             kinds.add(K4)
-        elif k3:
-            kinds.add(K3)
         elif k1:
             kinds.add(K1)
         else:
             return None
     if not any_diff:
         return None
-    return K4 if K4 in kinds else K3 if K3 in kinds else K1
+    return K4 if K4 in kinds else K1
 
 
 def it_out_chunks(it, text):
